@@ -4,6 +4,10 @@
 
 mod c23;
 mod c24;
+mod corpus;
+mod iso;
+mod mutate;
+mod xcorpus;
 
 fn usage() -> ! {
     eprintln!("usage: totalcheck check <C23|C24> <quick|thorough> | totalcheck replay <path>");
@@ -47,7 +51,9 @@ fn main() {
     if std::env::var("PARALLEL_THRESHOLD").is_err() {
         std::env::set_var("PARALLEL_THRESHOLD", "max");
     }
-    vcore::exec::silence_panics();
+    if std::env::var("TOTAL_SHOW_PANICS").is_err() {
+        vcore::exec::silence_panics();
+    }
     let code = match args[1].as_str() {
         "check" if args.len() >= 4 => match args[2].as_str() {
             "C23" => c23::run(&args[3]),
@@ -58,6 +64,59 @@ fn main() {
             }
         },
         "replay" if args.len() >= 3 => replay(&args[2]),
+        // internal: child process per index range
+        "worker" if args.len() >= 7 => {
+            let (from, to) = match (args[4].parse::<u64>(), args[5].parse::<u64>()) {
+                (Ok(a), Ok(b)) => (a, b),
+                _ => usage(),
+            };
+            let mark = args[6] == "mark";
+            match args[2].as_str() {
+                "C23" => iso::worker_main(&c23::space(&args[3]), from, to, mark),
+                "C24" => iso::worker_main(&c24::space(&args[3]), from, to, mark),
+                _ => 2,
+            }
+        }
+        "c23-one" if args.len() >= 3 => c23::one(&args[2]),
+        "c24-one" if args.len() >= 3 => c24::one(&args[2]),
+        // development aid: sizes of the case spaces
+        "sizes" => {
+            use iso::Space;
+            for t in ["quick", "thorough"] {
+                let a = c23::space(t);
+                let b = c24::space(t);
+                println!("C23 {}: {} cases in {} ranges; C24 {}: {} cases in {} ranges", t, a.total(), a.ranges().len(), t, b.total(), b.ranges().len());
+                println!("  C23 families: {:?}", a.family_sizes());
+                println!("  C24 sections: {:?}", b.section_sizes());
+            }
+            0
+        }
+        // development aid: one nesting-family input in this process
+        "c23-nest" if args.len() >= 4 => {
+            let input = mutate::nest(&args[2], args[3].parse().unwrap_or(1)).unwrap_or_default();
+            let stack = args.get(4).and_then(|s| s.parse::<usize>().ok()).unwrap_or(c23::STACK);
+            let h = std::thread::Builder::new().stack_size(stack).spawn(move || format!("{:?}", c23::probe(&input, None)).chars().take(100).collect::<String>()).unwrap();
+            println!("{}", h.join().unwrap());
+            0
+        }
+        // development aid: which seeds does the parser reject, and why
+        "corpus" => {
+            for (n, t) in corpus::SEEDS.iter().chain(xcorpus::EXEC.iter()) {
+                if let Err(e) = vcore::exec::parse(t) {
+                    println!("{}: {}\n    {}", n, e, t);
+                }
+            }
+            for (n, text, defaults) in xcorpus::TEMPLATES {
+                let mut q = text.to_string();
+                for i in (0..defaults.len()).rev() {
+                    q = q.replace(&format!("${}", i + 1), defaults[i]);
+                }
+                if let Err(e) = vcore::exec::parse(&q) {
+                    println!("template {}: {}\n    {}", n, e, q);
+                }
+            }
+            0
+        }
         _ => usage(),
     };
     std::process::exit(code);
